@@ -582,6 +582,11 @@ func (e *Enc) applyContract(fr *Frame, ct *FuncContract, fn *ssa.Function, sig *
 	}
 	for _, en := range ct.Ensures {
 		skip := false
+		// ncalls()/called() count the calls made inside the function under contract; at a call site
+		// they would be read against the CALLER's counters (a contradiction, i.e. an assumed false)
+		if mentionsIdent(en.Src, "ncalls") || mentionsIdent(en.Src, "called") {
+			skip = true
+		}
 		if len(calleeLets) > 0 {
 			for id := range calleeLets {
 				if mentionsIdent(en.Src, id) {
